@@ -44,7 +44,8 @@ THEOREMS = [
     "Config.bad_count_old_counterexample", "Config.toml_bool_text_old_counterexample",
     # hunter round: kernel-checked witnesses of open findings (what the code does today)
     "Config.unknown_key_bad_value_counterexample", "Config.ini_multiline_quoted_items_counterexample",
-    "Config.toml_file_falls_back_to_ini", "Config.config_key_counterexample", "Config.positional_equal_to_option_string_counterexample",
+    "Config.toml_file_falls_back_to_ini", "Config.config_key_unknown", "Config.config_key_old_counterexample",
+    "Config.positional_equal_to_option_string_counterexample",
 ]
 PARTIAL: dict = {}     # every property statement is at full strength for the code at /repo HEAD; `…_old_…` are about earlier code
 RULE = ("(a) exhaustive: every string of length <=3 (quick) / <=4 (thorough) over {a, space, \", ', \\, #, ;, =, %, [, ], newline, "
@@ -842,11 +843,13 @@ def live_table(special: bool = False) -> List[Dict[str, Any]]:
     table = []
     for a in p._actions:
         keys = p.get_possible_config_keys(a)
-        is_special = isinstance(a, (argparse._HelpAction, argparse._VersionAction)) or getattr(a, "is_config_file_arg", False)
+        if getattr(a, "is_config_file_arg", False):
+            continue        # since commit 6190835 ValidatorParser does not count the config-file option's keys as known: not in the table
+        is_special = isinstance(a, (argparse._HelpAction, argparse._VersionAction))
         if not keys or (is_special and not special):
             continue
         if is_special:
-            # --help / --version / --config: outside the value streams, but ValidatorParser counts their keys as known and
+            # --help / --version: outside the value streams, but ValidatorParser counts their keys as known and
             # configargparse turns them into `--key=value` arguments: carried as `store` so that the model's table is the code's
             table.append({"flags": list(a.option_strings), "kind": "store", "dest": a.dest, "default": a.default, "type": None, "choices": None,
                           "key": keys[0], "keys": list(keys), "const": None, "action": a, "special": True})
@@ -1022,7 +1025,7 @@ def eff_check(tok: str, o: Dict[str, Any], ns_val: Any) -> bool:
 
 def stream_options(ctx: Ctx, sc: Scratch) -> None:
     table = live_table()
-    mtable = live_table(special=True)       # the table ValidatorParser / configargparse work with (help, version, config included)
+    mtable = live_table(special=True)       # the table ValidatorParser works with (help and version included; not --config)
     ctx.extra["options_in_live_table"] = len(table)
     ctx.extra["options_in_merge_table"] = len(mtable)
     # the hypotheses of the merge theorems (FlagsDisjoint, KeysDisjoint, NoSepFlag) evaluated by the model on the live
@@ -1187,7 +1190,7 @@ def stream_options(ctx: Ctx, sc: Scratch) -> None:
                 ctx.fail("unknown-key:not-warned-once", ukin, f"{fname}: unknown key {uk!r}: warnings {r1['warnings']}")
             elif outcome_key(r1) != outcome_key(r0):
                 ctx.fail("unknown-key:applied", ukin, f"{fname}: unknown key {uk!r} changed the options{diff_opts(r1, r0)}")
-    # -- the key of the config-file option: known to the validator, becomes a late --config=… argument (hunt/C20/1)
+    # -- the key of the config-file option: an unknown key since commit 6190835 (warned about, dropped) (hunt/C20/1)
     for fname, header, fmt in FILES:
         sc.clear()
         sc.write(fname, f"{header}\nconfig = {toml_basic('extra.ini') if fmt == 'toml' else 'extra.ini'}\nproject-name = {toml_basic('x') if fmt == 'toml' else 'x'}\n")
